@@ -419,6 +419,62 @@ def hook_scenario():
     return problems, 1
 
 
+def hook_returns_genlike():
+    """An elaborate_frame hook that hands back a suspended coroutine / generator / async generator (replace and insert
+    forms): every frame found inside it must carry its own generator-like object as origin."""
+    import stackscope
+    problems = []
+    n = 0
+
+    async def leaf():
+        await cs.trap()
+
+    async def middle():
+        await leaf()
+
+    def subgen():
+        yield 1
+
+    def midgen():
+        yield from subgen()
+    for form in ("replace", "insert"):
+        for kind in ("coro", "gen"):
+            driven = middle() if kind == "coro" else midgen()
+            driven.send(None)
+            objs = [driven]
+            cur = driven
+            while True:
+                nxt = getattr(cur, "cr_await", None) or getattr(cur, "gi_yieldfrom", None)
+                if nxt is None or not isinstance(nxt, cs.GENLIKE):
+                    break
+                objs.append(nxt)
+                cur = nxt
+
+            def runner():
+                yield "parked"
+            r = runner()
+            next(r)
+
+            def hook(frame, next_inner, driven=driven, form=form):
+                return (driven, next_inner) if form == "insert" else driven
+            stackscope.elaborate_frame.register(r.gi_code, hook)
+            with warnings.catch_warnings():
+                warnings.simplefilter("ignore")
+                st = stackscope.extract(r)
+            if st.error is not None:
+                problems.append("%s/%s: error %r" % (form, kind, st.error))
+            for f in st.frames:
+                n += 1
+                owner = r if f.pyframe is r.gi_frame else None
+                for o in objs:
+                    if (getattr(o, "cr_frame", None) or getattr(o, "gi_frame", None)) is f.pyframe:
+                        owner = o
+                check_origin(f, owner, problems, "hook-returns-%s(%s)" % (kind, form))
+            r.close()
+            driven.close()
+    return problems, n
+
+
 def run(ctx):
     b = bounds(ctx.tier)
     idx = 0
@@ -442,6 +498,13 @@ def run(ctx):
         ctx.count("evaluations", n)
         if problems:
             ctx.violation({"mode": "hook"}, "; ".join(problems)[:1200], "hook")
+    idx += 1
+    if ctx.mine(idx):
+        problems, n = hook_returns_genlike()
+        ctx.count("evaluations", n)
+        ctx.count("distinct_nontrivial", 4)
+        if problems:
+            ctx.violation({"mode": "hookgen"}, "; ".join(problems)[:1200], "hookgen")
     for spec in cs.specs(b["max_links"]):
         idx += 1
         if not ctx.mine(idx):
@@ -488,6 +551,8 @@ def replay(case):
         return replay_case(case, OutermostObserver)
     if case.get("mode") == "hook":
         return [{"detail": p} for p in hook_scenario()[0]]
+    if case.get("mode") == "hookgen":
+        return [{"detail": p} for p in hook_returns_genlike()[0]]
     if case.get("mode") == "suspended":
         s = case["spec"]
         status, problems, n = observe_suspended((s[0], s[1], s[2], s[3]), case["k"])
